@@ -115,7 +115,7 @@ func Generate(r *vc.Rand, id string, o Opts) *spec.Spec {
 		s.API.HTTPErrs = append(s.API.HTTPErrs, &spec.HTTPError{Name: e.Name, Status: pickErrStatus(x.r)})
 		s.AddFeature("api-error")
 	}
-	if len(s.Schemes) > 0 && x.chance(1, 3) {
+	if len(s.Schemes) > 0 && (x.chance(1, 3) || o.Profile == "security" && x.chance(1, 4)) {
 		s.API.Security = x.genRequirements(1)
 		s.AddFeature("api-security")
 	}
